@@ -8,13 +8,14 @@ from props import common
 
 ID = "C02"
 MODULES = ["Series", "SO2", "SE2", "Rn", "SO3", "SE3", "SE23", "Products", "SE23P"]
-LEAN_TARGETS = ["Props.C02", "Props.C02S", "Props.C02SM"]
+LEAN_TARGETS = ["Props.C02", "Props.C02S", "Props.C02SM", "Props.C02C"]
 ANCHORS = ["cyecca/lie/group_so3.py", "cyecca/lie/group_se2.py", "cyecca/lie/group_se3.py", "cyecca/lie/group_se23.py",
            "cyecca/lie/group_so2.py", "cyecca/lie/group_rn.py", "cyecca/lie/direct_product.py", "cyecca/symbolic.py"]
 MISSING = [
     "Taylor cells (0 < theta^2 < 1e-3): explicit truncation bound as a theorem (C06) — numeric search only",
     "SO3Euler target (exp goes through Euler from_Matrix) — numeric search only",
-    "composition law exp((s+t)x) = exp(sx)exp(tx) as a Lean corollary for the MRP target — numeric search only",
+    "composition law exp((s+t)x) = exp(sx)exp(tx) and exp(-x)exp(x) = 1 ARE Lean corollaries (Props/C02C) for SO3Dcm, SO3Quat, SE2, SE3Quat on the closed-form cells; "
+    "MRP / SE_2(3) targets of these two clauses — numeric search only",
 ]
 
 
